@@ -48,6 +48,8 @@ pub struct Profile {
     pub p_indirect_call: f64,
     /// arithmetic whose destination is x0
     pub p_write_zero: f64,
+    /// layout: `j main` first, then the functions, main last (nothing behind its exit)
+    pub p_functions_first: f64,
     /// a function gets an error-exit block behind its epilogue (the exit ecall is then the last
     /// instruction of the function, directly in front of the next function)
     pub p_tail_exit: f64,
@@ -84,6 +86,7 @@ impl Profile {
             p_branch_to_function: 0.0,
             p_indirect_call: 0.0,
             p_write_zero: 0.0,
+            p_functions_first: 0.25,
             p_tail_exit: 0.12,
             p_csr: 0.0,
         }
@@ -124,6 +127,7 @@ impl Profile {
             p_branch_to_function: 0.0,
             p_indirect_call: 0.0,
             p_write_zero: 0.04,
+            p_functions_first: 0.25,
             p_tail_exit: 0.12,
             p_csr: 0.03,
         }
@@ -1670,8 +1674,13 @@ pub fn generate(rng: &mut Rng, prof: &Profile, inject: Option<Inject>) -> Genera
             g.injected = true;
         }
     }
-    for i in main_range.0..main_range.1 {
-        seq.push((g.out[i].0.clone(), g.out[i].1, Some(i)));
+    let functions_first = first_fn.is_none() && inject != Some(Inject::FallThrough) && g.rng.chance(prof.p_functions_first);
+    if functions_first {
+        seq.push((Line::Ins(Ins::j("main")), Flag::Both, None));
+    } else {
+        for i in main_range.0..main_range.1 {
+            seq.push((g.out[i].0.clone(), g.out[i].1, Some(i)));
+        }
     }
     let mut order: Vec<usize> = (0..n_funcs).collect();
     // keep fall-through pairs adjacent; otherwise any order
@@ -1687,6 +1696,11 @@ pub fn generate(rng: &mut Rng, prof: &Profile, inject: Option<Inject>) -> Genera
             } else {
                 seq.push((g.out[i].0.clone(), g.out[i].1, Some(i)));
             }
+        }
+    }
+    if functions_first {
+        for i in main_range.0..main_range.1 {
+            seq.push((g.out[i].0.clone(), g.out[i].1, Some(i)));
         }
     }
     if !data_first {
